@@ -12,7 +12,7 @@ import tempfile
 import urllib.parse
 from collections import defaultdict, deque
 from collections.abc import Callable, Sequence, Set
-from dataclasses import dataclass
+from dataclasses import dataclass, replace
 from functools import lru_cache
 from importlib.resources import files
 from pathlib import Path
@@ -1609,8 +1609,13 @@ class Wtp:
                                 name, None
                             )
                             if template_page is not None:
-                                template_page.body = self._template_to_body(
-                                    name, template_page.body
+                                # do not modify the Page object cached by
+                                # get_page()
+                                template_page = replace(
+                                    template_page,
+                                    body=self._template_to_body(
+                                        name, template_page.body
+                                    ),
                                 )
                         if (
                             template_page is not None
